@@ -65,6 +65,7 @@ def run(ctx: Ctx):
         bad = sorted({h for fr in frs for h in heads(fr) if h not in vocab})
         infix = [fr for fr in frs if re.search(r"(?<![=!<>])[<>]=?(?!=)|==|!=|&|\||~", fr) and not re.fullmatch(r"[<>=!]=?", fr.strip())]
         ctx.check(not bad and not infix, "R11.a", key, f"{r}: emits only grammar heads", f".ode writer: {r} emits " + (f"heads {bad} that are not in the grammar" if bad else f"infix operators {infix}") + "; the saved file is rejected by the loader", r.func.where())
+    printers.check_no_unvetted_override(ctx, "R11.a", "ode", skip=pm.NOT_FOR_WRITER)
     # operator table
     rel = M.method("ode", "_print_Relational")
     ctx.require(rel, "BaseGotranODECodePrinter._print_Relational not found")
